@@ -15,6 +15,7 @@ type Clause struct {
 	Text  string
 	E     Expr
 	Es    []Expr // modifies list
+	Callee string // callsite clauses: the callee key the assertion is attached to
 	File  string
 	Line  int
 }
@@ -31,6 +32,7 @@ type FuncContract struct {
 	Requires  []*Clause
 	Ensures   []*Clause
 	Modifies  []*Clause
+	Callsites []*Clause
 	Decreases *Clause
 	Loops     map[int]*LoopContract
 	File      string
@@ -67,6 +69,7 @@ type Contracts struct {
 	SMT    map[string][]string // mode ("int","bv","any") -> raw prelude lines
 	Lemmas []*Lemma
 	NonNil map[string]bool // typeIDs declared never-nil (verif:nonnil)
+	Frozen map[string]bool // pkg.Type.field assumed never written after construction (verif:frozen)
 	Errs   []string
 }
 
@@ -85,7 +88,7 @@ func NewContracts() *Contracts {
 
 var defRe = regexp.MustCompile(`^(\w+)\((.*?)\)\s*([\w\[\]]+)?\s*=\s*(.*)$`)
 var labelRe = regexp.MustCompile(`^([A-Za-z0-9_\-\.]+):\s+(.*)$`)
-var clauseKinds = map[string]bool{"requires": true, "ensures": true, "invariant": true, "decreases": true, "modifies": true}
+var clauseKinds = map[string]bool{"requires": true, "ensures": true, "invariant": true, "decreases": true, "modifies": true, "callsite": true}
 
 func (c *Contracts) errf(file string, line int, f string, a ...interface{}) {
 	c.Errs = append(c.Errs, fmt.Sprintf("%s:%d: %s", file, line, fmt.Sprintf(f, a...)))
@@ -279,6 +282,15 @@ func (c *Contracts) LoadFile(path, source string) error {
 					c.NonNil[sanitize(fields[1])] = true
 				}
 				curF, curL, curLemma = nil, nil, nil
+			case "frozen":
+				// assumption (trusted): the field is configuration, not written once the object is in use
+				if len(fields) >= 2 {
+					if c.Frozen == nil {
+						c.Frozen = map[string]bool{}
+					}
+					c.Frozen[fields[1]] = true
+				}
+				curF, curL, curLemma = nil, nil, nil
 			case "lemma":
 				// lemma name [arith=..] ; then //@ vars x T, y T ; requires/ensures
 				lm := &Lemma{Name: fields[1], Opts: map[string]string{}, File: path, Line: line}
@@ -361,6 +373,27 @@ func (c *Contracts) LoadFile(path, source string) error {
 			curF.Modifies = append(curF.Modifies, cl)
 		case "decreases":
 			curF.Decreases = cl
+		case "callsite":
+			// callsite <calleeKey> [label:] <expr>: asserted, in the caller's scope, before every call of calleeKey
+			fs := strings.Fields(cl.Text)
+			if cl.Label != "" || len(fs) < 2 {
+				// label was parsed from "callee label: expr"? the callee key comes first, so re-split
+			}
+			rest := strings.TrimSpace(strings.TrimPrefix(trim, first))
+			parts := strings.SplitN(rest, " ", 2)
+			if len(parts) < 2 {
+				c.errf(path, line, "callsite needs a callee key and an expression")
+				continue
+			}
+			cl.Callee = parts[0]
+			cl.Label = ""
+			body := strings.TrimSpace(parts[1])
+			if m := labelRe.FindStringSubmatch(body); m != nil && !strings.HasPrefix(m[2], ":") {
+				cl.Label = m[1]
+				body = m[2]
+			}
+			cl.Text = body
+			curF.Callsites = append(curF.Callsites, cl)
 		default:
 			c.errf(path, line, "%s not allowed in function contract", first)
 		}
